@@ -205,6 +205,7 @@ type Fault struct {
 	Nth    int    // fire at the Nth matching call (0-based) counted from arming
 	Kind   string // error, INVALID, SYNCING, ACCEPTED, nilid, unknownid, delay
 	Delay  time.Duration
+	Sticky bool // fire on every matching call until cleared (robust against late, cancelled calls)
 	seen   int
 	Fired  bool
 }
@@ -225,6 +226,10 @@ type ELFront struct {
 	UserTxs [][]byte
 	// BlobGas, when set, is reported as blob gas used of built payloads.
 	BlobGas uint64
+	// Jitter, when set, delays every engine call by a pseudo-random duration below it (moves the
+	// engine goroutine before/after its sibling goroutine in the application).
+	Jitter  time.Duration
+	jitterN uint64
 }
 
 type engineAPI struct{ f *ELFront }
@@ -281,10 +286,28 @@ func (f *ELFront) logCall(c Call) {
 	f.calls = append(f.calls, c)
 }
 
+func (f *ELFront) jitter() {
+	f.mu.Lock()
+	j := f.Jitter
+	f.jitterN = f.jitterN*6364136223846793005 + 1442695040888963407
+	n := f.jitterN >> 33
+	f.mu.Unlock()
+	if j > 0 {
+		time.Sleep(time.Duration(n % uint64(j)))
+	}
+}
+
 // fault returns the fault to apply to this call, if any (caller holds f.mu).
 func (f *ELFront) fault(method string) *Fault {
 	for _, ft := range f.faults {
-		if ft.Fired || ft.Method != method || (ft.Phase != "" && ft.Phase != f.phase) {
+		if ft.Method != method || (ft.Phase != "" && ft.Phase != f.phase) {
+			continue
+		}
+		if ft.Sticky {
+			ft.Fired = true
+			return ft
+		}
+		if ft.Fired {
 			continue
 		}
 		if ft.seen == ft.Nth {
@@ -304,6 +327,7 @@ func (a *engineAPI) GetChainConfig() (*params.ChainConfig, error) {
 
 func (a *engineAPI) ForkchoiceUpdatedV3(update engine.ForkchoiceStateV1, attr *engine.PayloadAttributes) (engine.ForkChoiceResponse, error) {
 	f := a.f
+	f.jitter()
 	f.mu.Lock()
 	method := "fcu"
 	if attr != nil {
@@ -397,6 +421,7 @@ func (a *engineAPI) ForkchoiceUpdatedV3(update engine.ForkchoiceStateV1, attr *e
 
 func (a *engineAPI) GetPayloadV4(id engine.PayloadID) (*engine.ExecutionPayloadEnvelope, error) {
 	f := a.f
+	f.jitter()
 	f.mu.Lock()
 	ft := f.fault("getPayload")
 	c := Call{Method: "getPayload", Arg: hex.EncodeToString(id[:])}
@@ -433,6 +458,7 @@ func (a *engineAPI) GetPayloadV4(id engine.PayloadID) (*engine.ExecutionPayloadE
 
 func (a *engineAPI) NewPayloadV4(ed engine.ExecutableData, hashes []common.Hash, beaconRoot *common.Hash, reqs []hexutil.Bytes) (engine.PayloadStatusV1, error) {
 	f := a.f
+	f.jitter()
 	f.mu.Lock()
 	ft := f.fault("newPayload")
 	var br common.Hash
